@@ -7,13 +7,13 @@ import shapes
 COUNT = {"quick": 1200, "thorough": 30000}
 
 
-def thread_prog(rng, u, nacq, allow_panic, data_ops, only=None):
+def thread_prog(rng, u, nacq, allow_panic, data_ops, only=None, sh=0.35):
     b = u.b
     ops = []
     for _ in range(nacq):
         ops.append(("get",))
         cid = rng.choice(only or u.roots)
-        mode = "sh" if b.sharable[cid] and b.locks_of[cid] and rng.random() < 0.35 else "ex"
+        mode = "sh" if b.sharable[cid] and b.locks_of[cid] and rng.random() < sh else "ex"
         n = len(b.locks_of[cid])
         fl = rng.choice(["guard", "guard", "scoped", "try", "scopedtry"])
         if fl in ("guard", "try"):
@@ -41,13 +41,23 @@ def gen(pid, tier, rng, n=None):
         u = histgen.Universe(rng, b, nleaves=(2, 5), ncolls=(1, 4), poison=0.25, depth=rng.choice([0, 1, 1, 2]))
         nt = rng.randint(2, 4)
         only = None
-        if pid == "C09":
+        sh0 = 0.35
+        if pid == "C09" or (pid in ("C03", "C04", "C05") and rng.random() < 0.5):
             # thread 0 acquires a retrying collection; the others contend through anything else
             size = rng.randint(1, 4)
             members = []
             pool = [c for c in u.roots if c in b.leaf_of]
             rng.shuffle(pool)
             members = pool[:size]
+            if rng.random() < 0.4:
+                # a reader-heavy retrying acquisition: RwLock members only, contended by writers
+                rws = [c for c in pool if b.sharable[c]]
+                while len(rws) < size:
+                    c = b.leaf("R")
+                    rws.append(c)
+                    u.roots.append(c)
+                members = rws[:size]
+                sh0 = 0.8
             if rng.random() < 0.3:
                 own = [b.leaf(rng.choice("MR")) for _ in range(rng.randint(1, 2))]
                 members.append(b.coll("owned", own))
@@ -56,8 +66,9 @@ def gen(pid, tier, rng, n=None):
             only = [rc]
         progs = []
         for t in range(nt):
-            progs.append((t, thread_prog(rng, u, rng.randint(1, 3), pid in ("C01",) and rng.random() < 0.3,
-                                         2 if pid == "C02" else 1, only if t == 0 else None)))
+            progs.append((t, thread_prog(rng, u, rng.randint(1, 3), pid in ("C01", "C03", "C05") and rng.random() < 0.3,
+                                         2 if pid == "C02" else 1, only if t == 0 else None,
+                                         sh0 if t == 0 else 0.35)))
         total = sum(len(p) for _, p in progs)
         sched = [rng.randrange(nt) for _ in range(rng.randint(total, 4 * total + 4))]
         if rng.random() < 0.2:
@@ -71,11 +82,11 @@ def gen(pid, tier, rng, n=None):
     return scens
 
 
-def coq_expr(pid, s, r):
+def coq_expr(pid, s, r, suffix=""):
     if r["bobs"] is None or r["sched"] is None:
         return None
     sched = "[" + "; ".join(map(str, r["sched"])) + "]"
-    return f"check_{pid} ({s.coq_b(*r['adr'])}) {sched} ({hl.bobs_coq(r['bobs'])})"
+    return f"check_{pid}{suffix} ({s.coq_b(*r['adr'])}) {sched} ({hl.bobs_coq(r['bobs'])})"
 
 
 def classify(s, r):
